@@ -70,15 +70,6 @@ Definition wh_inv (v : variant) (s : wh) : Prop :=
   qoff (eq_q (wh_e s)) < qmax (eq_q (wh_e s)) /\
   exists pre, frames_of v (wh_done s) pre /\ rinv v pre (wh_cur s) (wh_sent s) (wh_e s).
 
-Lemma frames_of_snoc v ms w m body : frames_of v ms w -> sdec v body = Some m -> nozero body = true ->
-  frames_of v (ms ++ [m]) (w ++ body ++ [0%N]).
-Proof.
-  induction 1 as [|m0 ms0 b0 rest Hs Hz Hf IH]; intros Hsb Hzb.
-  - cbn [app]. rewrite <- (app_nil_r (body ++ [0%N])), <- app_assoc. constructor; [assumption|assumption|constructor].
-  - cbn [app]. rewrite <- !app_assoc. change ((m0 :: ms0) ++ [m]) with (m0 :: (ms0 ++ [m])).
-    replace (b0 ++ [0%N] ++ rest ++ body ++ [0%N]) with (b0 ++ [0%N] ++ (rest ++ body ++ [0%N])) by reflexivity.
-    constructor; [assumption|assumption|]. apply IH; assumption.
-Qed.
 
 Lemma qcrop0_off_lt q n : qinv q -> n <= qlen q -> qoff q < qmax q ->
   exists o, qcrop q 0 n = Ok (mkq (qbuf q) (qlen q - n) (qmax q) o) /\ o < qmax q.
